@@ -228,6 +228,23 @@ const (
 	Ed25519Sig
 )
 
+// keyFamilyOfSignatureAlgorithm returns the kind of public key a signature
+// algorithm is made with.
+func keyFamilyOfSignatureAlgorithm(algo SignatureAlgorithm) PublicKeyAlgorithm {
+	switch algo {
+	case MD2WithRSA, MD5WithRSA, SHA1WithRSA, SHA256WithRSA, SHA384WithRSA, SHA512WithRSA,
+		SHA256WithRSAPSS, SHA384WithRSAPSS, SHA512WithRSAPSS:
+		return RSA
+	case DSAWithSHA1, DSAWithSHA256:
+		return DSA
+	case ECDSAWithSHA1, ECDSAWithSHA256, ECDSAWithSHA384, ECDSAWithSHA512:
+		return ECDSA
+	case Ed25519Sig:
+		return Ed25519
+	}
+	return UnknownPublicKeyAlgorithm
+}
+
 func (algo SignatureAlgorithm) isRSAPSS() bool {
 	switch algo {
 	case SHA256WithRSAPSS, SHA384WithRSAPSS, SHA512WithRSAPSS:
@@ -1096,6 +1113,25 @@ func CheckSignatureFromKey(publicKey interface{}, algo SignatureAlgorithm, signe
 		return ErrUnsupportedAlgorithm
 	}
 	digest := hash(hashType, signed)
+
+	// The key must be of the family the signature algorithm names; otherwise a
+	// signature made under one algorithm would verify under another identifier.
+	var keyFamily PublicKeyAlgorithm
+	switch publicKey.(type) {
+	case *rsa.PublicKey:
+		keyFamily = RSA
+	case *dsa.PublicKey:
+		keyFamily = DSA
+	case *ecdsa.PublicKey, *AugmentedECDSA:
+		keyFamily = ECDSA
+	case ed25519.PublicKey:
+		keyFamily = Ed25519
+	default:
+		return ErrUnsupportedAlgorithm
+	}
+	if keyFamily != keyFamilyOfSignatureAlgorithm(algo) {
+		return ErrUnsupportedAlgorithm
+	}
 
 	switch pub := publicKey.(type) {
 	case *rsa.PublicKey:
